@@ -123,7 +123,9 @@ fn compare(ctx: &mut Ctx, family: &str, idx: u64, b: &[u8], env: &Env, obs: &Pkt
             }
             // RDATA from exactly RDLENGTH bytes
             if wr.rdlen == 0 {
-                if lr.rd != Rd::Opaque(vec![]) {
+                // an OPT record without options is legitimately shown as an OPT with an empty option list
+                let empty_typed = matches!(&lr.rd, Rd::Fields(_)) && schema(lr.rtype).is_some() && encode_rdata_plain(lr.rtype, &lr.rd).is_empty();
+                if lr.rd != Rd::Opaque(vec![]) && !empty_typed {
                     ctx.violation("rdata-from-rdlength", &format!("empty-rdata-not-empty:{}", type_name(wr.rtype)),
                         format!("RDLENGTH 0 but the library shows {}", short_rd(&lr.rd)), case());
                     return;
